@@ -353,6 +353,18 @@ inline rc::Gen<ZoneSpec> zone_gen() {
       }
     }
     if (z.version == 1) { z.has_footer = false; z.footer.clear(); }
+    // --- like zic -b slim: one zone in three keeps only the types that some transition refers to (and type 0), so a
+    // footer may need a type that the table does not contain
+    if (*vf::range<int>(0, 2) == 0 && z.types.size() > 1) {
+      std::vector<int> used(z.types.size(), 0); used[0] = 1;
+      for (auto& tr : z.trans) used[tr.type] = 1;
+      std::vector<int> remap(z.types.size(), -1); std::vector<TypeSpec> kept;
+      for (size_t i = 0; i < z.types.size(); ++i) if (used[i]) { remap[i] = (int)kept.size(); kept.push_back(z.types[i]); }
+      if (kept.size() != z.types.size()) {
+        for (auto& tr : z.trans) tr.type = remap[tr.type];
+        z.types = kept;
+      }
+    }
     // --- optional big-bang entry (pre-2018 zic): first entry at -2^59 with the pre-first type
     if (z.version != 1 && !z.types[0].isdst && *vf::range<int>(0, 7) == 0 &&
         (z.trans.empty() || z.trans.front().t > -(1LL << 58))) {
